@@ -37,7 +37,7 @@ fn raw_list(r: &mut Rng) -> Req {
     Req::RawList { n, fail_at, shape: r.below(7) as u64 }
 }
 
-pub const NUM_DIRECTED: u64 = 36;
+pub const NUM_DIRECTED: u64 = 37;
 
 /// Directed scenarios; `variant` varies seeds / small timing offsets.
 pub fn directed(idx: u64, variant: u64, d: Duration) -> Scenario {
@@ -304,6 +304,16 @@ pub fn directed(idx: u64, variant: u64, d: Duration) -> Scenario {
             s.callers.push((ms(20), vec![Step::Pipelined((0..n - n / 2).map(|_| Req::Raw { shape: 0 }).collect())]));
             s.callers.push((ms(20), vec![Step::Do(Req::Raw { shape: 2 }), Step::Do(Req::Raw { shape: 1 })]));
             s.notifications = vec![(ms(21), vec!["player".into()])];
+        }
+        // several callers ask the same argument-less question at the same time (byte-identical requests), some of them
+        // pipelined: each is a request of its own
+        36 => {
+            s.world.reply_delay = vec![ms(variant % 4 * 5)];
+            s.world.c2s_latency = vec![ms(variant / 4 % 2)];
+            for k in 0..3 {
+                s.callers.push((ms(20 + (variant / 8 % 2) * k), vec![Step::Do(Req::TypedStatus), Step::Pipelined(vec![Req::TypedStatus, Req::TypedStatus]), Step::Do(Req::Raw { shape: 1 }), Step::Do(Req::TypedStatus)]));
+            }
+            s.notifications = vec![(ms(22), vec!["player".into()])];
         }
         // cancelled call whose request is still executed by the server, next caller right behind
         _ => {
